@@ -40,7 +40,7 @@ def demo_files(wt):
     for l in out.splitlines():
         if l.startswith('??'):
             f = l[3:].strip()
-            if f in ('patch.diff', 'meta.txt', 'p', 'PROPERTY.txt') or f.endswith('.orig') or f.endswith('.rej') or os.path.basename(f).startswith('gofasta'):
+            if f in ('patch.diff', 'meta.txt', 'p', 'PROPERTY.txt', 'TASK.md') or f.endswith('.orig') or f.endswith('.rej') or os.path.basename(f).startswith('gofasta'):
                 continue
             if f in created:
                 continue  # a new source file that is part of the change itself
